@@ -215,7 +215,7 @@ impl C03 {
                 });
             } else {
                 let gain = x1 - x0;
-                // value of the stableswap hops' permitted dust, carried to X along the realised rates (x2, +2)
+                // value of the stableswap hops' permitted dust, carried to X along the realised or marginal rates, whichever is larger (x4, +2)
                 let mut allowed: f64 = 2.0;
                 for (d, _b, denom, at) in &dust {
                     // the dust sits in `denom` right after executed hop `at`; carry it to the start
@@ -230,7 +230,12 @@ impl C03 {
                         let nxt = executed.iter().enumerate().skip(from).find(|(_, (_, _, id, _))| *id == cur);
                         match nxt {
                             Some((k, (i, o, _, od))) if *i > 0 => {
-                                v = v * (*o as f64) / (*i as f64);
+                                // one unit of a scarce token can be worth far more at the margin
+                                // than at the hop's average rate: a stableswap hop's band is
+                                // 2 + the value of 2 offered units, i.e. it carries the marginal
+                                // price at the hop's start
+                                let marginal = dust.iter().find(|(_, _, _, at2)| *at2 == k).map(|(_, b, _, _)| ((*b - 2.0) / 2.0).max(0.0)).unwrap_or(0.0);
+                                v = v * ((*o as f64) / (*i as f64)).max(marginal);
                                 cur = od.clone();
                                 from = k + 1;
                                 if cur == start && v > best {
